@@ -270,3 +270,15 @@ def check(case) -> Result:
     res.labels = ["positions", "convert=" + ("on" if body.get("text_convert") else "off"), "strategy=" + ("page_by" if body.get("page_by") else "subline" if body.get("subline_by") else "plain")]
     res.nontrivial = True
     return res
+
+
+def reductions(case):
+    from ..reduce import generic_reductions
+    if "cps" in case or "cps_range" in case:
+        cps = case.get("cps") or list(range(*case["cps_range"]))
+        n = len(cps)
+        if n > 1:
+            yield {"cps": cps[: n // 2]}
+            yield {"cps": cps[n // 2:]}
+        return
+    yield from generic_reductions(case)
